@@ -2,7 +2,7 @@
 """Run the registered checks against every seeded change (apply to /repo, check, undo) and record the outcome in
 seeded/<id>/meta.json and seeded/RESULTS.md.   usage: seed_all.py [id ...]"""
 import glob, json, os, subprocess, sys
-EXTRA = {'C01': ['C02', 'C08', 'C14'], 'C02': ['C01', 'C04', 'C06'], 'C03': ['C06', 'C15'], 'C04': ['C06'], 'C06': ['C04', 'C07'], 'C07': ['C06'], 'C14': ['C01'], 'C16': [], 'C18': ['C05', 'C06'], 'C19': ['C07', 'C06'], 'C20': ['C04'], 'C05': ['C07', 'C06', 'C18'], 'C08': ['C01', 'C16', 'C20'], 'C10': ['C04', 'C06'], 'C11': ['C03', 'C15', 'C18'], 'C12': ['C14'], 'C15': ['C03', 'C11'], 'C17': ['C03', 'C18']}
+EXTRA = {'C01': ['C02', 'C08', 'C14'], 'C02': ['C01', 'C04', 'C06'], 'C03': ['C06', 'C15'], 'C04': ['C06'], 'C06': ['C04', 'C07'], 'C07': ['C06'], 'C14': ['C01'], 'C16': [], 'C18': ['C05', 'C06'], 'C19': ['C07', 'C06'], 'C20': ['C04'], 'C05': ['C07', 'C06', 'C18'], 'C08': ['C01', 'C16', 'C20'], 'C10': ['C04', 'C06'], 'C11': ['C03', 'C15', 'C18'], 'C12': ['C14'], 'C15': ['C03', 'C11'], 'C17': ['C03', 'C06', 'C18']}
 INPLACE = '--inplace' in sys.argv
 sys.argv = [a for a in sys.argv if a != '--inplace']
 ids = sys.argv[1:] or sorted(os.path.basename(d) for d in glob.glob('/verif/seeded/C*-*'))
